@@ -226,6 +226,9 @@ type schedResult struct {
 // expectNames, if set, are the activity names the replayed prefix must pick (divergence = hard error).
 var expectNames []string
 
+// divergeLog, if set (VERIF_DIVERGE_LOG), receives the message of every replay divergence (debugging aid).
+var divergeLog func(string)
+
 func runSchedule(t *testing.T, sc schedScenario, prefix []int, maxPoints int) (res schedResult) {
 	synctest.Test(t, func(t *testing.T) {
 		resetUIDs()
@@ -316,6 +319,9 @@ func init() {
 				diverged++
 				info.Exhaustive = false
 				info.Cap = fmt.Sprintf("%d schedule prefixes could not be replayed deterministically and were skipped", diverged)
+				if divergeLog != nil {
+					divergeLog(r.viol.Msg)
+				}
 				capSoft = true
 				return
 			}
